@@ -41,7 +41,7 @@ func PlanFor(prop, tier string) (*Plan, error) {
 		p.Monitors = func() []Monitor { return []Monitor{NewC05()} }
 		p.Rule = "same enumeration; every accepted fixed-price bid is checked against the cap and remainder of the pre-state, every settlement against cap (as of settlement), request at the clearing price and offered amount; non-trivial = distinct (received, cap, price) cases"
 	case "C06":
-		p.Scenarios = []*Scenario{S1b(tier, "3", true), S1b(tier, "0.5", false), S1a(tier, true)}
+		p.Scenarios = []*Scenario{S1b(tier, "3", true), S1b(tier, "0.5", false), S1a(tier, true), S1p(tier)}
 		if !quick {
 			p.Scenarios = append(p.Scenarios, S1b(tier, "0.333333333333333333", true), S1b(tier, "1", false), S1a(tier, false))
 		}
@@ -66,7 +66,7 @@ func PlanFor(prop, tier string) (*Plan, error) {
 		p.Monitors = func() []Monitor { return []Monitor{NewC09()} }
 		p.Rule = "schedules x proceeds x block patterns: fixed-price auction at price 1 so that one or two paying-denominated bids produce any proceeds in the grid; every subset of release instants hit exactly / skipped / overshot; the split at settlement is compared with floor(proceeds x weight) / remainder-to-last in exact rationals and every block with the instalments due and unreleased at its start; non-trivial = distinct (proceeds, weights) splits and distinct (state, due set, time) releases"
 	case "C11":
-		p.Scenarios = []*Scenario{S2b(tier, 2, false).withModRejects(), S2b(tier, 0, true).withModRejects()}
+		p.Scenarios = []*Scenario{S2b(tier, 2, false).withModRejects(), S2b(tier, 0, true).withModRejects(), S1p(tier).withModRejects()}
 		if !quick {
 			p.Scenarios = append(p.Scenarios, S2a(tier, true).withModRejects(), S3(tier, false).withModRejects())
 		}
@@ -79,6 +79,37 @@ func PlanFor(prop, tier string) (*Plan, error) {
 		}
 		p.Monitors = func() []Monitor { return []Monitor{NewC13()} }
 		p.Rule = "order-book evolutions between end times (new bids, modifications, cap changes) for max rounds 0/1/2, several rates and periods; at every end-time block the decision is compared with the exact-rational rule, the appended end time with last + period, the recorded matched count with the reference count of the book; from every distinct state with an open batch auction a bounded continuation (one block per successive end time) must settle within the rounds left; non-trivial = distinct (rounds left, previous count, current count, decision, rate) cases"
+	case "C18":
+		lite := Budget{"bid": 1, "allow": 1, "update": 0, "mod": 1, "block": 2, "tick": 0, "cancel": 1}
+		p.Scenarios = []*Scenario{
+			S1a(tier, true).withBudget(lite, "-lite").withProbes(false),
+			S2a(tier, false).withBudget(lite, "-lite").withProbes(false),
+			S3(tier, true).withBudget(Budget{"bid": 1, "mod": 1, "block": 2, "update": 0, "create": 1}, "-lite").withProbes(false),
+			S1p(tier),
+		}
+		if !quick {
+			mid := Budget{"bid": 2, "allow": 2, "update": 1, "mod": 1, "block": 3, "tick": 1, "cancel": 1}
+			p.Scenarios = []*Scenario{
+				S1a(tier, true).withBudget(mid, "-mid").withProbes(false),
+				S2a(tier, false).withBudget(mid, "-mid").withProbes(false),
+				S3(tier, true).withBudget(Budget{"bid": 2, "mod": 1, "block": 3}, "-mid").withProbes(false),
+				S1a(tier, false).withBudget(lite, "-lite").withProbes(true),
+				S2a(tier, true).withBudget(lite, "-lite").withProbes(true),
+				S1p(tier).withProbes(false),
+			}
+		}
+		p.Monitors = func() []Monitor { return []Monitor{NewC18()} }
+		p.Rule = "in every state of the lifecycle and multi-auction scenarios below the stated budgets, every message type is delivered with a field alphabet that replaces one field at a time (thorough: every pair of fields) by invalid and boundary values (bad address, zero/negative price, zero/negative amount, invalid/equal/third denom, end<=start, end<now, 100/101 instalments, weights != 1, unordered or too-early releases, rounds 30/31, rate 0, unknown auction/bid id, wrong kind, wrong signer/authority, insufficient funds); each decision is compared in both directions with the reference, and every rejection with an unchanged store dump, balances and community pool; non-trivial = distinct (message kind, reference reason, probe, field values) decisions"
+	case "C19":
+		p.Scenarios = []*Scenario{S3(tier, false).withRejectsTerminal(), S3x(tier)}
+		if !quick {
+			p.Scenarios = append(p.Scenarios, S3(tier, true).withRejectsTerminal())
+		}
+		p.Monitors = func() func() []Monitor {
+			f := NewC19Factory()
+			return func() []Monitor { return []Monitor{f()} }
+		}()
+		p.Rule = "histories over 2-3 concurrent auctions sharing auctioneer, bidders and (crossed) denominations, failed operations included: around every transition the raw records, bids, allow-list, instalments, counters and three escrow balances of every auction that is neither the target nor due for a lifecycle step must be byte-identical; agreed terms of every auction are compared before/after every transition; ids follow the counters; a table shared by the whole run maps (projection of X, actor balances, params, time, op) to the outcome and flags two different outcomes under one key; non-trivial = distinct frame cases and distinct table keys seen with different contents of the other auctions"
 	case "C07":
 		p.Scenarios = []*Scenario{S3(tier, false), S1a(tier, true), S2a(tier, false)}
 		if !quick {
